@@ -50,3 +50,26 @@ prop('C13',
                  "traces across six backends, under ASan/UBSan; exhaustive sweep of boundary slice parameters on tiny sources."),
      technique="stateful model-based property testing (tape-decoded forests; rapidcheck + libFuzzer), cross-backend differential traces, boundary sweep",
      design_ref="DESIGN.md section 3, C13")
+
+prop('C14',
+     quick=dict(sweep=True, pbt=(40000, 600, 8), fuzz=(100000, 600, 4)),
+     thorough=dict(sweep=True, pbt=(1600000, 700, 10), fuzz=(4000000, 700, 5)),
+     floor=dict(quick=40000, thorough=500000), alloc_cap_mb=16,
+     rule=("Six generated families chosen by the tape: (a) MemoryWriter over a 0..64 byte buffer between two 32-byte canary zones with 1..40 "
+           "operations {Write(k), typed writes, Seek, SeekForward, SeekBackward, SeekBeginning/End} and boundary arguments "
+           "{0,1,len-1,len,len+1,rem-1,rem,rem+1,2^31,2^32,2^63,2^64-1,2^64-pos,...}; (b) DynamicMemoryWriter histories incl. growth seeks <=1 MiB "
+           "and {2^40,2^63,2^64-1} which must fail cleanly; (c) size-prefixed writes of containers at/beyond each prefix maximum (i8,u8,i16,u16,u32,i32); "
+           "(d) typed write -> typed read inverse; (e) Writer::Write<Chunk>(Reader&) for Chunk in {1,2,3,7,16,4096,131072,default} x source length "
+           "classes {0,1,C-1,C,C+1,2C-1,2C+1,3C+5,random} x start x source backend {memory,file,memory slice,file slice} x destination {dynamic,fixed,file}; "
+           "(f) FileWriter open flags x file exists x data. Oracle: array/vector + cursor model compared after every operation, canaries intact; "
+           "refusal iff the container exceeds the prefix maximum; destination == source[start..] and reader at its end; file system state per flag semantics. "
+           "Sweep: full (c) matrix, full (e) matrix (8x8x4x3x2), full (f) matrix (16 flag sets x exists x 3 data variants), all 2-step MemoryWriter "
+           "histories over 5 operations x 14 boundary classes on a 5-byte buffer. Non-trivial = history with a refused operation followed by a successful "
+           "write (a,b); every (c)/(f) case; copies whose length is not a multiple of the chunk (e); >=3 typed items (d)."),
+     sweep_what="(c) 10 sizes x 6 prefix types; (e) 8 chunks x 8 length classes x 4 backends x 3 destinations x 2 starts; (f) 16 flag sets x {exists, absent} x 3 data variants; (a) all 2-step histories (5 ops x 14 argument classes)^2 on a 5-byte buffer",
+     assumptions=["for an existing file opened with neither Truncate nor Append the statement makes no content claim; only absence of errors is required", "Linux/tmpfs file semantics"],
+     title="Writers write exactly what the history implies and refuse what does not fit",
+     level_text=("Generated histories against array/vector models with guard zones under ASan/UBSan, plus complete matrices for prefix limits, "
+                 "chunked copies and file open flags; exploration - no counterexample among generated cases."),
+     technique="model-based property testing (rapidcheck + libFuzzer tape histories), exhaustive configuration matrices, ASan/UBSan with canary zones",
+     design_ref="DESIGN.md section 3, C14")
